@@ -146,6 +146,13 @@ func lex(src string) ([]tok, error) {
 						sb.WriteByte('\t')
 					case '0':
 						sb.WriteByte(0)
+					case 'x':
+						if j+2 < len(src) {
+							var b byte
+							fmt.Sscanf(src[j+1:j+3], "%02x", &b)
+							sb.WriteByte(b)
+							j += 2
+						}
 					default:
 						sb.WriteByte(src[j])
 					}
